@@ -65,6 +65,9 @@ ASSUMPTIONS = ['no rule or alias is named _ambig/_iambig (reserved tree labels)'
                'indices); under the dynamic lexers through the instrumented dynamic model (dyn-families)']
 
 IMPORTS = 'From LV Require Import Base.Prelude Forest.ExplicitToTree Forest.ExplicitCheck.'
+IMPORTS_G = ('From LV Require Import Base.Prelude Forest.ExplicitToTree Forest.ExplicitCheck Forest.ExplicitGraph '
+             'Forest.ExplicitGraphCheck.')
+MAX_GNODES = 300         # size bound of a numbered forest graph given to Forest/ExplicitGraph.v
 
 MAX_NODES = 400          # unfolded forest size bound for a Coq case
 MAX_TREE = 4000          # unfolded size bound of an explicit tree that is examined further
@@ -303,6 +306,31 @@ STACKED_CORPUS = [
 ]
 
 
+# fixed corpus of grammars with derivation cycles (independent of VERIF_SEED): the forest is a cyclic graph and
+# ForestToParseTree has to retreat from cycles; every shape of cycle the walk distinguishes is represented: a unit
+# self-loop, mutual unit recursion, a cycle through a nullable sibling (left child / right child on the path), a cycle
+# below an intermediate node, a cycle reached from two parents (the packed-node cache is filled under one path and
+# reused under another), cycles through inlined and ?rules
+CYCLIC_CORPUS = [
+    ('start: start | A\nA: "a"\n', ['a']),
+    ('start: x\nx: x | A | x x\nA: "a"\n', ['a', 'aa']),
+    ('start: b\nb: c | A\nc: b | A\nA: "a"\n', ['a']),
+    ('start: e start | A\ne:\nA: "a"\n', ['a']),
+    ('start: start e | A\ne:\nA: "a"\n', ['a']),
+    ('start: e start e | A\ne: | e e\nA: "a"\n', ['a']),
+    ('start: x x\nx: x | A | e\ne:\nA: "a"\n', ['a', 'aa', '']),
+    ('start: x y\nx: y | A\ny: x | A | e\ne:\nA: "a"\n', ['a', 'aa']),
+    ('start: _x\n_x: _x | A | _x _x\nA: "a"\n', ['a', 'aa']),
+    ('start: q\n?q: q | A | q q\nA: "a"\n', ['a', 'aa']),
+    ('start: x A\nx: x | e | x x\ne:\nA: "a"\n', ['a']),
+    ('start: p p\np: q | A\nq: p | r\nr: A | q\nA: "a"\n', ['aa']),
+    ('start: a a\na: b | A\nb: a | A A | b\nA: "a"\n', ['aa', 'aaa']),
+    ('start: x\nx: y y | A\ny: x | e\ne: | e\nA: "a"\n', ['a']),
+    ('start: x\nx: x e e | e x e | A\ne:\nA: "a"\n', ['a']),
+    ('start: l\nl: l l | i\ni: l | A\nA: "a"\n', ['a', 'aa']),
+]
+
+
 def gen_chain_grammar(rng, lexer):
     """random member of the same class: start uses an inlined _a, _a: _b x .., _b (and below it _c / ?q) ambiguous, the
     symbol after the inlined child makes the intermediate node of _a ambiguous as well"""
@@ -523,6 +551,58 @@ def export_forest(root):
         path.discard(id(n))
         return ('sym', label, fams)
     return node(root)
+
+
+def export_id_graph(root):
+    """the SPPF below root as a numbered graph: [('tok', type, value) | ('sym', label, [(rule, left|None, right|None)])],
+    a node's number is its position, root = 0; packed children in SymbolNode.children order (as the transformer visits
+    them).  None when too big."""
+    from lark.parsers.earley_forest import TokenNode
+    ids = {}
+    order = []
+
+    def num(n):
+        k = id(n)
+        if k not in ids:
+            ids[k] = len(order)
+            order.append(n)
+        return ids[k]
+    num(root)
+    nodes = []
+    i = 0
+    while i < len(order):
+        n = order[i]
+        i += 1
+        if len(order) > MAX_GNODES:
+            return None
+        if isinstance(n, TokenNode):
+            nodes.append(('tok', str(n.token.type), str(n.token)))
+            continue
+        label = ('I', n.s[0], n.s[1]) if n.is_intermediate else ('S', n.s.name)
+        fams = []
+        for p in n.children:
+            fams.append((p.rule, num(p.left) if p.left is not None else None, num(p.right) if p.right is not None else None))
+        nodes.append(('sym', label, fams))
+    return nodes
+
+
+def coq_graph(nodes, rt):
+    out = []
+    for nd in nodes:
+        if nd[0] == 'tok':
+            out.append('(GTok %s %s)' % (S(nd[1]), S(nd[2])))
+            continue
+        _, label, fams = nd
+        lb = '(LSym %s)' % S(label[1]) if label[0] == 'S' else '(LInter %s %s)' % (rt.ref(label[1]), N(label[2]))
+        fs = ['(mkGP %s %s %s)' % (rt.ref(r), 'None' if l is None else '(Some %d)' % l, 'None' if x is None else '(Some %d)' % x)
+              for r, l, x in fams]
+        out.append('(GSym %s %s)' % (lb, L(fs)))
+    return L(out)
+
+
+def coq_gcase(nodes, tree, rt, strict):
+    t = 'None' if tree is None or tree == ('none',) else '(Some %s)' % coq_tree(tree)
+    return rt.wrap('(%s, %s, 0, %s)' % (B(strict), coq_graph(nodes, rt), t))
 
 
 def forest_is_cyclic(root):
@@ -1335,7 +1415,8 @@ def count_expansions(t, cap=10 ** 6):
     return n
 
 
-def run_stream(ctx, stream, ngrammars, cyclic_wanted, maxlen, cases, meta, defs, acases=None, ignore=False, corpus=None):
+def run_stream(ctx, stream, ngrammars, cyclic_wanted, maxlen, cases, meta, defs, acases=None, ignore=False, corpus=None,
+               gcases=None):
     from lark.exceptions import GrammarError
     from lark import Tree
     rng = ctx.rng
@@ -1429,6 +1510,16 @@ def run_stream(ctx, stream, ngrammars, cyclic_wanted, maxlen, cases, meta, defs,
                     acases[2].append((g, lexer, text, opts, verdict))
             if obs['status'] != 'ok':
                 continue
+            if gcases is not None and tree_size(obs['tree']) <= 3 * MAX_NODES:
+                # the forest as a numbered (possibly cyclic) graph for Forest/ExplicitGraph.v: which packed nodes the walk
+                # drops on a cycle, the packed-node cache, and the tree built from what is kept
+                gnodes = export_id_graph(obs['root'])
+                if gnodes is not None:
+                    fc = forest_is_cyclic(obs['root'])
+                    hist(ctx, graph_model_forest=('cyclic' if fc else 'too big to unfold' if fc is None else 'acyclic'))
+                    gstrict = not has_shared_ambig(obs['lark_tree'])
+                    gcases[0].append(coq_gcase(gnodes, obs['tree'], RuleTable('r', opts['maybe_placeholders']), gstrict))
+                    gcases[1].append((g, lexer, text, opts, verdict))
             try:
                 forest = export_forest(obs['root'])
             except (TooBig, Cyclic):
@@ -1461,8 +1552,10 @@ def correspond(ctx):
     acases = ([], [], [])
     run_stream(ctx, 'stacked-corpus', 0, False, 0, cases, meta, defs, acases, corpus=STACKED_CORPUS)
     run_stream(ctx, 'overlap-corpus', 0, False, 0, cases, meta, defs, None, corpus=OVERLAP_CORPUS)
+    gcases = ([], [])
+    run_stream(ctx, 'cyclic-corpus', 0, True, 0, cases, meta, defs, acases, corpus=CYCLIC_CORPUS, gcases=gcases)
     run_stream(ctx, 'acyclic', ctx.scale(80, 1500) * k, False, 4, cases, meta, defs, acases)
-    run_stream(ctx, 'cyclic', ctx.scale(25, 300) * k, True, 3, cases, meta, defs, acases)
+    run_stream(ctx, 'cyclic', ctx.scale(25, 300) * k, True, 3, cases, meta, defs, acases, gcases=gcases)
     # %ignore: layer B and the derivation oracle; layer A (graph form, added-vs-forest) where the lexer is basic - the
     # basic lexer drops the ignored tokens, the parser works on the remaining token list; the dynamic lexers' layer A
     # is the dyn-families stream
@@ -1477,6 +1570,7 @@ def correspond(ctx):
                                     extra_defs='\n'.join(_STR_DEFS + defs))
     for e in errs:
         ctx.violation('correspondence:coq-eval', {'no_longer_checks': 'Coq evaluation of the model', 'error': e}, False, e[:300])
+    check_graph_model(ctx, gcases, defs)
     for i in bad:
         g, lexer, text, opts, verdict = meta[i]
         if verdict:
@@ -1485,6 +1579,25 @@ def correspond(ctx):
                       dict(witness(g, lexer, text, opts), no_longer_checks='model/implementation agreement on this case'),
                       False, 'model and implementation disagree on the explicit tree (or CollapseAmbiguities result, or the '
                              'forest is not of the shape assumed by the theorem); the derivation oracle holds on this case')
+
+
+def check_graph_model(ctx, gcases, defs):
+    """Coq: Forest/ExplicitGraph.graph_explicit (cycle retreat, packed-node cache, tree of the kept nodes) on the numbered
+    forest graph equals lark's explicit tree, and the graph has the local form the theorems assume (gwfb)"""
+    terms, gmeta = gcases
+    ctx.extra['graph_model_cases'] = len(terms)
+    bad, errs = ctx.coq_bad_indices('c04g', IMPORTS_G, 'gcheck_case', terms, chunk=100, extra_defs='\n'.join(_STR_DEFS + defs))
+    for e in errs:
+        ctx.violation('correspondence:coq-eval-G', {'no_longer_checks': 'Coq evaluation of gcheck_case', 'error': e}, False, e[:300])
+    for i in bad:
+        g, lexer, text, opts, verdict = gmeta[i]
+        if verdict:
+            continue
+        ctx.violation('correspondence:Forest/ExplicitGraph.graph_explicit vs ForestToParseTree on a forest graph',
+                      dict(witness(g, lexer, text, opts), no_longer_checks='cycle retreat / packed-node cache of the explicit-mode walk'),
+                      False, 'the model of the explicit-mode walk over the (cyclic) forest graph and lark disagree on the tree (which '
+                             'packed nodes are dropped on a cycle, what the cache returns, or the graph is not of the assumed local '
+                             'form); the soundness oracle holds on this case')
 
 
 def check_layer_a(ctx, acases):
